@@ -1080,14 +1080,41 @@ Definition tiled_spec_holds (c : cfg) (R C : Z) (full : bool) (i : input) : bool
         [false; true]
   end.
 
+(* ---- finding D113 (open): the ORDER of the source frames --------------- *)
+(* A TILED_SPARSE source may list its frames in any order: [forder] gives, for
+   source frame f (1-based), the tile index forder[f-1] it covers.  The code
+   refers stored tile k to source frame k+1 whatever that order is (the model
+   above does the same: s_meta holds the tile index), so the property - "the
+   mask under source frame f" - needs the source to be in row-major order. *)
+Definition frame_tile (forder : list Z) (f : Z) : Z :=
+  if (1 <=? f) && (f <=? zlen forder) then nthz (f - 1) forder 0 else -1.
+
+(* what the property demands for a source with frame order [forder] *)
+Definition expected_tiled_req_order (c : cfg) (R C : Z) (i : input) (forder req : list Z)
+  : list (list (list Z)) :=
+  map (fun f => expected_tile_plane c R C i (frame_tile forder f)) req.
+
+Definition tiled_order_spec_holds (c : cfg) (R C : Z) (full : bool) (i : input) (forder : list Z) : bool :=
+  match construct_tiled c R C full i with
+  | Err _ => false
+  | Ok st =>
+      let req := one_to (n_tiles R C (rows c) (cols c)) in
+      forallb (fun lz : bool =>
+        eqb_res eqb3 (read_by_frame lz st req true) (Ok (expected_tiled_req_order c R C i forder req)))
+        [false; true]
+  end.
+
 (* the whole observation of one tiled case:
    [NumberOfFrames; per-frame (segment, tile index); PixelData bytes (native);
     read by source frame of the in-memory / eagerly read / lazily read object
     ([refs] = the stored frames refer to source frames; otherwise indexing by
     source frame is refused); other discrepancies (none); the specification
-    holds; the matrix is valid; the decoded stored frames] *)
+    (row-major source) holds; the matrix is valid; the decoded stored frames;
+    the source frame number each stored frame refers to; does reading all source
+    frames return the mask under each of them when the source lists its frames
+    in the order [forder] (false = finding D113 shows on this case)] *)
 Definition run_tiled (c : cfg) (R C : Z) (full refs : bool) (i : input) (req : list Z)
-  (assert_missing : bool) : val :=
+  (assert_missing : bool) (forder : list Z) : val :=
   match construct_tiled c R C full i with
   | Err k => VErr k
   | Ok st =>
@@ -1100,5 +1127,7 @@ Definition run_tiled (c : cfg) (R C : Z) (full refs : bool) (i : input) (req : l
            VL [];
            VB (tiled_spec_holds c R C full i);
            VB (valid_tiled c R C i);
-           vz_list2 (map (stored_frame false st) (zrange (zlen (s_meta st)))) ]
+           vz_list2 (map (stored_frame false st) (zrange (zlen (s_meta st))));
+           vz_list (if refs then map (fun m => snd m + 1) (s_meta st) else []);
+           VB (tiled_order_spec_holds c R C full i forder) ]
   end.
